@@ -175,6 +175,8 @@ def _run_path(unit, decisions, contracts, ctx):
             names = [p.arg for p in clo_s.node.args.args]
             try:
                 t = api.call_spec(ip, fn, {n: post_env[n] for n in names})
+            except PathEnd:
+                return ctx, 'pathend', env_all, None, None      # outside an explored bound (recorded as assumption)
             except Raised as r:
                 # the clause itself is not defined on this outcome (e.g. indexes a missing row): it does not hold
                 ob = ctx.oblige(f"{unit.name}/ensures.{label}", False, kind='ensures', assume_after=False)
